@@ -243,6 +243,14 @@ func (ex *Explorer) runPath(s *Solver, it workItem) {
 		in.checkGlobalsUnchanged()
 	}
 
+	if end.kind == endBudget {
+		st := in.stat("terminates-within-budget")
+		st.Checked++
+		st.Violated++
+		in.candidate("terminates-within-budget", end.msg, "", in.model)
+	} else if end.kind == endReturn {
+		in.stat("terminates-within-budget").Checked++
+	}
 	vec := in.vector()
 	ex.mu.Lock()
 	defer ex.mu.Unlock()
